@@ -82,6 +82,8 @@ def detect(d, props):
                     break
     finally:
         sh(["git", "-C", "/repo", "checkout", "--", "."])
+        # the generated constants were re-derived from the changed tree by the check: derive them from the restored tree again
+        sh([sys.executable, os.path.join(os.path.dirname(os.path.abspath(__file__)), "sld2lean.py")])
     print(json.dumps(res, indent=1))
     return res
 
